@@ -27,11 +27,13 @@ FORBIDDEN = re.compile(r'\b(Admitted|admit|Axiom|Axioms|Parameter|Parameters|Con
 
 # property -> (Properties file, [tie files], human description of the theorems)
 TIE_FOR = {
-    'C01': ['TieClasses', 'TieMath'], 'C02': ['TieClasses', 'TieMath'], 'C03': ['TieClasses', 'TieMath'],
-    'C04': ['TieClasses', 'TieMath'],
-    'C05': ['TieClasses', 'TieReducers'], 'C06': ['TieClasses', 'TieReducers', 'TieMath'],
-    'C07': ['TieClasses', 'TieReducers', 'TieMath'], 'C08': ['TieReducers'],
-    'C09': ['TieCache', 'TieBound'], 'C10': ['TieWrites'], 'C11': ['TieReducers', 'TieBound'],
+    'C01': ['TieClasses', 'TieMath'], 'C02': ['TieClasses', 'TieMath'],
+    'C03': ['TieClasses', 'TieMath', 'TieFormulas'], 'C04': ['TieClasses', 'TieMath', 'TieFormulas'],
+    'C05': ['TieClasses', 'TieReducers', 'TieRules', 'TieSynth'],
+    'C06': ['TieClasses', 'TieReducers', 'TieMath', 'TieFormulas', 'TieRules', 'TieSynth'],
+    'C07': ['TieClasses', 'TieReducers', 'TieMath', 'TieFormulas', 'TieRules'],
+    'C08': ['TieReducers', 'TieRules'],
+    'C09': ['TieCache', 'TieBound'], 'C10': ['TieWrites'], 'C11': ['TieReducers', 'TieBound', 'TieRules'],
     'C12': ['TieClasses'], 'C13': ['TiePublic'], 'C14': ['TieSets'], 'C15': ['TieOperators'],
     'C16': ['TieClasses'], 'C17': ['TieClasses', 'TieMath'], 'C18': ['TieSets'],
 }
